@@ -143,8 +143,8 @@ package parser
 //@   use lex
 //@   requires s != nil && scOK(s.last, s.pos, len(s.s))
 //@   ensures scOK(s.last, s.pos, len(s.s))
-//@   ensures @notfound: !found ==> s.pos == old(s.pos)
-//@   ensures @found: found ==> expHead(s.s, old(s.pos), s.pos) && digitEnd(s.s, s.pos)
+//@   ensures @notfound: !result ==> s.pos == old(s.pos)
+//@   ensures @found: result ==> expHead(s.s, old(s.pos), s.pos) && digitEnd(s.s, s.pos)
 //@   ensures @nodots: ndots(s.s, old(s.pos), s.pos) == 0
 //@   ensures @alphabet: allNumBytes(s.s, old(s.pos), s.pos)
 //@   assigns s.pos, s.last
@@ -158,6 +158,7 @@ package parser
 //@   use lex
 //@   ensures @alphabet: numBytesOf(s) ==> numBytesOf(result)
 //@   ensures @nonempty: len(result) > 0
+//@   ensures @value: result == normNum(s)
 
 //@ func parser.(*scanner).numberOrDot
 //@   use lex
@@ -171,6 +172,8 @@ package parser
 //@   ensures @longest: result.Kind == TokenNumber ==> digitEnd(s.s, s.pos)
 //@   ensures @onedot: result.Kind == TokenNumber ==> ndots(s.s, old(s.pos), s.pos) <= 1
 //@   ensures @value: result.Kind == TokenNumber ==> numBytesOf(result.Value) && len(result.Value) > 0
+//@   ensures @hexvalue: result.Kind == TokenNumber && old(s.pos) + 1 < len(s.s) && s.s[old(s.pos)] == '0' && (s.s[old(s.pos)+1] == 'x' || s.s[old(s.pos)+1] == 'X') ==> result.Value == hexValue(s.s[old(s.pos)+2:s.pos])
+//@   ensures @decvalue: result.Kind == TokenNumber && !(old(s.pos) + 1 < len(s.s) && s.s[old(s.pos)] == '0' && (s.s[old(s.pos)+1] == 'x' || s.s[old(s.pos)+1] == 'X')) ==> result.Value == normNum(s.s[old(s.pos):s.pos])
 //@   ensures @brokenhex: result.Kind == TokenError ==> s.s[old(s.pos)] == '0' && (s.s[old(s.pos)+1] == 'x' || s.s[old(s.pos)+1] == 'X') && (s.pos == old(s.pos) + 2 || (old(s.pos) + 2 < s.pos && allHex(s.s, old(s.pos) + 2, s.pos)))
 //@   assigns s.pos, s.last
 //@ loop 1
@@ -769,7 +772,7 @@ package parser
 //@   inline
 
 //@ func parser.Parse
-//@   use perr exprwf exprok pwf yield
+//@   use perr exprwf exprok pwf yield lexwf
 //@   hide expr lex
 //@   function parseOf
 //@   ensures @wf: result1 == nil ==> stmtsWF(query, result0, len(result0))
